@@ -110,7 +110,11 @@ def parse_term(text, lib, env):
         need(args[0] == cfg['mgr'],
              f'{lib}: first argument of {name} is not the manager: {text!r}')
         args = args[1:]
-    need(args, f'{lib}: call without operands: {text!r}')
+    if not args:
+        # a library call without operands is a constant by its source text; CSem
+        # gives a meaning only to the constants it knows (any other has none,
+        # so the branch that uses it cannot agree with dd.bdd)
+        return T_const(norm)
     for a in args:
         need('=' not in P.blank_strings(a), f'{lib}: keyword argument in {text!r}')
     return T_call(name, [parse_term(a, lib, env) for a in args])
